@@ -208,7 +208,9 @@ def codec_value(rng, depth=2):
         if q < 0.8:
             return rng.choice([0, 1, -7, 2**31, 2**53 + 1, -2**63, 2**63 - 1])
         if q < 0.93:
-            return rng.choice([0.5, 1.5, 0.1, 1e21, 2.0, -0.25])
+            # integral floats on both sides of 2^53, 2^63, 2^64 and of the 1e21 switch to exponent form
+            return rng.choice([0.5, 1.5, 0.1, 1e21, 2.0, -0.25, 3.0, 1e15, 9007199254740992.0, 4e18, 9.223372036854775808e18, 1e19, -1e19,
+                               18446744073709551616.0, 1e20, 9.99e20, -9.99e20, 1e22])
         return rng.choice([True, False])
     if r < 0.75:
         return {rng.choice(["a", "b", "c", "k 1", "z"]): codec_value(rng, depth - 1) for _ in range(rng.randint(0, 3))}
